@@ -33,6 +33,7 @@ from xdis.cross_dis import (
     format_code_info,
     get_code_object,
     instruction_size,
+    jump_cache_size,
     op_has_argument,
 )
 from xdis.cross_types import UnicodeForPython3
@@ -341,20 +342,10 @@ def get_logical_instruction_at_offset(
                 signed_arg = -arg if "JUMP_BACKWARD" in opname else arg
                 argval = i + get_jump_val(signed_arg, opc.python_version)
 
-                # check cache instructions for python 3.13
-                if opc.version_tuple >= (3, 13):
-                    if opc.opname[op] in [
-                        "POP_JUMP_IF_TRUE",
-                        "POP_JUMP_IF_FALSE",
-                        "POP_JUMP_IF_NONE",
-                        "POP_JUMP_IF_NOT_NONE",
-                        "JUMP_BACKWARD",
-                    ]:
-                        argval += 2
-
-                # FOR_ITER has a cache instruction in 3.12
-                if opc.version_tuple >= (3, 12) and opname == "FOR_ITER":
-                    argval += 2
+                # from 3.12 a relative jump is taken from the end of the
+                # instruction's own inline cache entries (FOR_ITER, SEND,
+                # and in 3.13 also JUMP_BACKWARD and POP_JUMP_IF_*)
+                argval += 2 * jump_cache_size(opname, opc.version_tuple)
                 argrepr = "to " + repr(argval)
             elif op in opc.JABS_OPS:
                 argval = get_jump_val(arg, opc.python_version)
